@@ -184,6 +184,8 @@ def domain_laws(out, Domain, attrs, shape, case):
         return out.fail('mismatch:domain:axes', 'axes(%s) = %s' % (proj, D.axes(proj)))
     if tuple(D.canonical(proj)) != tuple(a for a in attrs if a in proj):
         return out.fail('mismatch:domain:canonical', 'canonical(%s) = %s' % (proj, D.canonical(proj)))
+    if D.size([]) != 1 or D.size(()) != 1 or D.project([]).size() != 1 or D.size(sub) * D.size(D.invert(sub)) != prod(attrs):
+        return out.fail('mismatch:domain:size_empty', 'size([]) = %r, size(()) = %r, size(S)*size(invert(S)) = %r for S = %s' % (D.size([]), D.size(()), D.size(sub) * D.size(D.invert(sub)), sub))
     if D.size() != prod(attrs) or D.size(proj) != prod(proj) or D.size(proj[0]) != sizes[proj[0]]:
         return out.fail('mismatch:domain:size', 'size %r / size(%s) %r' % (D.size(), proj, D.size(proj)))
     if len(D) != len(attrs) or list(iter(D)) != attrs or any(D[a] != sizes[a] for a in attrs):
